@@ -96,6 +96,7 @@ type Report struct {
 	Wall          time.Duration
 	PathCapHit    bool
 	DomDecided    int
+	AssertPaths   int // feasible paths on which at least one assertion was evaluated
 	Notes         map[string]int
 }
 
@@ -773,6 +774,9 @@ func (eng *Engine) Run(cfg Config) (*Report, error) {
 		}
 		eng.stubs[rf] = sf
 	}
+	eng.intrMu.Lock()
+	eng.intrinsics = map[*ssa.Function]Intrinsic{}
+	eng.intrMu.Unlock()
 	eng.tabulate = map[*ssa.Function]*tabulated{}
 	for _, name := range cfg.Tabulate {
 		f := all[name]
@@ -872,6 +876,9 @@ func (rep *Report) merge(ex *Exec) {
 	rep.Paths++
 	rep.Steps += int64(ex.steps)
 	rep.DomDecided += ex.DomDecided
+	if len(ex.asserts) > 0 {
+		rep.AssertPaths++
+	}
 	rep.Violations = append(rep.Violations, ex.violations...)
 	for _, s := range ex.incon {
 		rep.Inconclusive[s]++
